@@ -62,6 +62,12 @@ CHECKS.update({
         note='Trusted: symnp engine, z3; dimension 1-2 (stated per recipe), sigma symbolic for a subset, dyadic otherwise; inequality goals that are refutable only outside the box [-8,8]^n count as holding on the box; np.finfo eps served as 0. Not decided: KL cross entropy (Lambert W), nuclear norm; L2-ball projections by values only in the thorough tier. Two known findings.',
         ref='DESIGN.md section 4 C07'),
 })
+CHECKS.update({
+    'C06': dict(
+        text='Forward-mode AD of the real operator code: every registry recipe with a derivative (nonlinear built-ins, ufunc operators, expression classes, block operators, affine difference/resizing operators, functionals as operators) is evaluated on dual numbers x_i + eps d_i; z3 decides equality of the tangent with op.derivative(x)(d) for all x, d; derivative(x) must be linear with the right domain/range and equal op for linear op. Expression trees (C04 grammar plus pointwise products) over leaves with uninterpreted values and uninterpreted Jacobians decide the chain, sum and product rules at the correct inner points for every leaf behaviour (all depth <= 1, 200 seeded depth-2 trees quick; 2500 + 500 depth-3 thorough).',
+        note='Trusted: symnp engine incl. calculus rules on dual numbers, z3. Exact ties of dual values (kinks, == shortcuts) excluded. Complex operators outside. One known finding (PointwiseNorm.derivative on array-weighted base spaces raises).',
+        ref='DESIGN.md section 4 C06'),
+})
 NOT_YET = {}
 
 
